@@ -16,7 +16,7 @@ BOUNDS = ("exp: unit axis fully symbolic (sphere constraint), theta in stated su
 ASSUMPTIONS = ["oracle for exp: Rodrigues formula I + sin(t) K + (1-cos t) K^2 and V = t I + (1-cos t) K + (t - sin t) K^2 (closed form of the series)",
                "scipy.linalg.logm (trlog2): modelled by the closed-form principal logarithm of a planar rotation / rigid motion (validated against LAPACK by translator validation)"]
 TIMEOUT = {'quick': 10, 'thorough': 120}
-WALL_BUDGET = {'quick': 400, 'thorough': 3000}
+WALL_BUDGET = {'quick': 400, 'thorough': 1800}
 
 
 def FUNCS():
